@@ -100,6 +100,12 @@ def exec {σ} (c : Config σ) : List Nat → Option (Config σ × List (Nat × S
                   | some s => (i, s) :: log
                   | none => log)
 
+/-- number of steps a section takes: enter (first lock), further locks, the actions, leave -/
+def stepsOf {σ} (s : Section σ) : Nat := max 1 s.locks.length + s.body.length + 1
+
+/-- number of steps of every complete execution of a program -/
+def totalSteps {σ} (prog : List (Thread σ)) : Nat := (prog.map fun t => (t.map stepsOf).sum).sum
+
 /-- some thread can take a step -/
 def canStep {σ} (c : Config σ) : Bool := (List.range c.ts.length).any fun i => (step c i).isSome
 
@@ -182,6 +188,22 @@ def start (d : Dir) (k : Nat) : State := ⟨d, List.replicate k (.trying 1)⟩
 def Creator.done : Creator → Bool
   | .trying _ => false
   | _ => true
+
+/-- creator `i` runs alone until it returns (at most `fuel` loop iterations) -/
+def runAlone (limit : Nat) (tag : Nat → Nat) (i : Nat) : Nat → State → State
+  | 0, s => s
+  | fuel + 1, s =>
+    match step true limit tag s i with
+    | some s1 => runAlone limit tag i fuel s1
+    | none => s
+
+/-- `k` calls of newTempFile one after the other; result: the index each call returned
+(`none` = gave up) -/
+def runSeq (limit : Nat) (d : Dir) (k : Nat) : List (Option Nat) :=
+  let s := (List.range k).foldl (fun s i => runAlone limit (fun j => j) i (limit + 2) s) (start d k)
+  s.cs.map fun c => match c with
+    | .got n => some n
+    | _ => none
 
 end FS
 
